@@ -105,11 +105,29 @@ EXAMPLES = {
 }
 
 
-def build_example(name, form, seed):
+# other valid constructor arguments of the same classes: used for the prior in-process history ("the same model class built with
+# other arguments earlier in this process must not change a later default run": class-level state)
+ALT = {
+    "BoltzmannWealth": {"n": 5, "width": 3, "height": 3},
+    "Schelling": {"density": 0.5, "minority_pc": 0.4, "homophily": 0.3, "radius": 2},
+    "VirusOnNetwork": {"num_nodes": 7, "avg_node_degree": 2, "initial_outbreak_size": 2, "virus_spread_chance": 0.9},
+    "ConwaysGameOfLife": {"width": 4, "height": 5, "initial_fraction_alive": 0.6},
+    "BoidFlockers": {"population_size": 5, "speed": 2, "vision": 5, "separation": 1},
+    "EpsteinCivilViolence": {"width": 6, "height": 6, "citizen_density": 0.5, "cop_density": 0.1, "legitimacy": 0.5},
+    "PdGrid": {"width": 4, "height": 4, "activation_order": "Sequential",
+               "payoffs": {("C", "C"): 2, ("C", "D"): -1, ("D", "C"): 3, ("D", "D"): 0.5}},
+    "SugarscapeG1mt": {"initial_population": 6, "endowment_min": 10, "endowment_max": 20},
+    "WolfSheep": {"width": 5, "height": 5, "initial_sheep": 3, "initial_wolves": 2, "grass": True, "sheep_reproduce": 0.2},
+}
+
+
+def build_example(name, form, seed, alt=False):
     import importlib
     import inspect
 
     modname, cls, kw = EXAMPLES[name]
+    if alt:
+        kw = {**kw, **ALT.get(name, {})}
     klass = getattr(importlib.import_module(modname), cls)
     params = inspect.signature(klass.__init__).parameters
     sk = seed_kwargs(form, seed)
@@ -324,7 +342,7 @@ def run_spec(spec):
     py0, np0 = random.getstate(), np.random.get_state()
     form = spec["form"]
     if spec["prog"].startswith("example:"):
-        model, form = build_example(spec["prog"].split(":", 1)[1], form, spec["seed"])
+        model, form = build_example(spec["prog"].split(":", 1)[1], form, spec["seed"], alt=bool(spec.get("alt")))
     else:
         model = build_api(spec)
     digs = [digest(model)]
